@@ -291,6 +291,18 @@ def run(ctx):
     if not ok:
         finding('C07.e', 'R-PROV', sv_m, '; '.join(norm(n) for n in stores) or 'store', 'the in-memory cassette stores the live object instead of its encoded text: '
                 'later mutation of the saved objects changes what is fetched')
+    # ---------------- C07.a (files) a save replaces the file: it is opened truncating
+    from . import common as _cmw
+    filc = repo.find_class('FileBasedTapeCassette')
+    svf = filc.lookup('_save_recording') if filc is not None else None
+    if svf is None:
+        raise AnalysisError('anchor-lost method=FileBasedTapeCassette._save_recording')
+    nt = _cmw.nontruncating_writes(svf.node)
+    ca.instance('file cassette: the recording file is opened truncating', svf.qualname, not nt)
+    for n, why in nt[:1]:
+        res.add(Finding('C07', 'C07.a', 'R-AGREE', svf.file, svf.qualname, n.lineno, norm(n)[:100],
+                        'the recording file is opened without truncation (%s): saving an id again with a shorter encoding leaves the old tail in the '
+                        'file, and the recording can no longer be decoded' % why))
     # ---------------- C07.f a saved recording stays fetchable: nothing but close() removes entries from a store
     from . import common
     cf = res.clause('C07.f', 'R-WHOCALLS', 'only close() removes stored recordings (no eviction, no expiry)', floor=2)
